@@ -35,7 +35,7 @@ def cleanup(d):
 def demos(src):
     out = []
     for f in sorted(os.listdir(src)):
-        if f.endswith("_test.go"):
+        if f.endswith("_test.go") or f.endswith("_test.go.txt"):  # (stored demos carry a .txt suffix)
             text = open(os.path.join(src, f), encoding="utf-8").read()
             m = re.search(r"^package\s+(\w+)", text, re.M)
             pkg = m.group(1) if m else "valid"
@@ -52,7 +52,7 @@ def run_demo(wt, src, race_hint):
     tail = ""
     placed = []
     for f, sub, names, race in demos(src):
-        dst = os.path.join(wt, sub, f)
+        dst = os.path.join(wt, sub, f[:-4] if f.endswith(".txt") else f)
         shutil.copy(os.path.join(src, f), dst)
         placed.append((dst, sub, names, race))
     for dst, sub, names, race in placed:
